@@ -192,7 +192,7 @@ UPSTREAM = [
 def upstream_case(rng, k, n0, n1, emax=7):
     d, f = UPSTREAM[k]
     layouts, nprocs = f(n0, n1)
-    N = _extents(rng, d, _need(d, layouts, nprocs), emax if d == 3 else min(emax, 5))
+    N = _extents(rng, d, _need(d, layouts, nprocs), emax if (d == 3 or rng.random() < 0.2) else min(emax, 5))
     if N is None:
         return None
     names = [n for h in layouts for n in h]
@@ -246,7 +246,7 @@ def random_grouping(rng, n0, n1, emax=7):
             rng.shuffle(l)
         layouts.append({'S0': l})
         nprocs.append(rng.choice([1, [1], [1, 1]]))
-    N = _extents(rng, d, _need(d, layouts, nprocs), emax if d == 3 else min(emax, 5))
+    N = _extents(rng, d, _need(d, layouts, nprocs), emax if (d == 3 or rng.random() < 0.2) else min(emax, 5))
     if N is None:
         return None
     names = [n for h in layouts for n in h]
@@ -626,7 +626,7 @@ def run():
                         'write sets of the single steps (source untouched when a buffer is given) are exercised on every case, not proved']
     return chk.finish(proof,
                       rule='fullSimulation grouping on every grid <= %dx%d, upstream groupings (incl. the 4-D two-handler family), seeded random '
-                           'groupings (2-D handler + 1-D handlers + serial handler [1]/[1,1]) accepted by the constructor; 3-D extents 1-7, 4-D extents 1-5, '
+                           'groupings (2-D handler + 1-D handlers + serial handler [1]/[1,1]) accepted by the constructor; 3-D extents 1-7, 4-D extents 1-5 (1-7 in a fifth of the cases), '
                            'process counts <= extents; walks of 1-6 transposes, buffer or not, float/complex; non-trivial = different layouts on more '
                            'than one rank; distinct = (shape, grouping, grid, source, dest, buffer, dtype)' % ((3, 3) if chk.tier == 'quick' else (4, 4)),
                       extra={'rejected_by_constructor': rejected, 'coq_eval_cross_checks': len(terms) + len(sample_terms)},
